@@ -27,7 +27,7 @@ func genC08(t *rapid.T) CaseC08 {
 	c := CaseC08{Splice: genSplice(t, true)}
 	// alignment_stuffing bytes between the descriptor loop and CRC_32 are part of the syntax (a clear section may carry them too)
 	c.Splice.Stuffing = rapid.SampledFrom([]int{0, 0, 0, 1, 2, 3, 4, 7, 8}).Draw(t, "alignment-stuffing")
-	c.Pointer = rapid.SampledFrom([]int{0, 0, 0, 1, 2, 5, 20}).Draw(t, "pointer")
+	c.Pointer = rapid.SampledFrom([]int{0, 0, 0, 0, 1, 2, 5, 20, 183, 254, 255}).Draw(t, "pointer")
 	if rapid.IntRange(0, 5).Draw(t, "negative") == 0 {
 		c.Negative = rapid.SampledFrom([]string{"command", "encrypted", "table-id", "identifier"}).Draw(t, "neg-kind")
 		switch c.Negative {
@@ -129,7 +129,7 @@ func c08Negative(c CaseC08, x *hx.Ctx) *hx.Failure {
 var propC08 = hx.Register(hx.Prop[CaseC08]{ID: "C08", Gen: genC08, Check: checkC08})
 
 func c08Rule() {
-	hx.Rec("C08").SetRule("cases: a reference-model splice_info_section over the supported syntax: splice_null / time_signal with time / splice_insert x {cancelled, program or component mode, immediate or timed, with/without break_duration, 0..4 components with/without time}; pts_adjustment, pts_time, durations and offsets from 33-/40-bit boundary sets; any tier, cw_index, protocol_version; real or 0xFFF splice_command_length; 0..5 descriptors: segmentation (cancelled or full, all flag combinations, 0..3 components, 40-bit duration, UPID of 0..40 bytes or MID list of 0..3 entries, named or arbitrary type, sub-segment fields for 0x34/0x36) and foreign descriptors, 0..8 alignment_stuffing bytes before CRC_32, one time in five a sibling of an earlier descriptor (same type, event id and segment numbers, differing in one other field or in none); pointer_field 0..20. One case in six is a negative: unsupported command type, encrypted bit, table id != 0xFC, or a segmentation descriptor identifier differing from CUEI in one bit. Oracle: every getter equals the model where the syntax carries the field; PTS() = (pts_time + pts_adjustment) mod 2^33; descriptors refer back to their signal; negatives map to their sentinel errors. Non-trivial: splice_insert other than the plain program/timed form, or a 33/40-bit field with a bit >= 32 set, or >= 2 descriptors of different shapes, or a negative.",
+	hx.Rec("C08").SetRule("cases: a reference-model splice_info_section over the supported syntax: splice_null / time_signal with time / splice_insert x {cancelled, program or component mode, immediate or timed, with/without break_duration, 0..4 components with/without time}; pts_adjustment, pts_time, durations and offsets from 33-/40-bit boundary sets; any tier, cw_index, protocol_version; real or 0xFFF splice_command_length; 0..5 descriptors: segmentation (cancelled or full, all flag combinations, 0..3 components, 40-bit duration, UPID of 0..40 bytes or MID list of 0..3 entries, named or arbitrary type, sub-segment fields for 0x34/0x36) and foreign descriptors, 0..8 alignment_stuffing bytes before CRC_32, one time in five a sibling of an earlier descriptor (same type, event id and segment numbers, differing in one other field or in none); pointer_field 0..255. One case in six is a negative: unsupported command type, encrypted bit, table id != 0xFC, or a segmentation descriptor identifier differing from CUEI in one bit. Oracle: every getter equals the model where the syntax carries the field; PTS() = (pts_time + pts_adjustment) mod 2^33; descriptors refer back to their signal; negatives map to their sentinel errors. Non-trivial: splice_insert other than the plain program/timed form, or a 33/40-bit field with a bit >= 32 set, or >= 2 descriptors of different shapes, or a negative.",
 		"time_signal / program splice_insert with time_specified_flag 0 are outside the statement's supported list and are not generated as positives",
 		"section_length up to the 12-bit limit (long UPIDs push it beyond 1023)")
 }
